@@ -53,6 +53,7 @@ type hwCaseC struct {
 	Opts     []hwHV `json:"opts"`
 	Body     string `json:"body"`
 	TName    bool   `json:"tname"`   // the gun's target is given by name (localhost:port)
+	Preload  *bool  `json:"preload"` // request-target cases: how the provider reads the file (absent: rotates with the case id)
 	Gun      string `json:"gun"`     // "" (http gun) | "connect"
 	CSSL     bool   `json:"cssl"`    // connect gun: option connect-ssl
 	CStatus  int    `json:"cstatus"` // connect gun: what the proxy answers to CONNECT
@@ -361,7 +362,11 @@ func (e *hwEnv) runCase(cs hwCase) hwOut {
 			out.Via += " uris-inline"
 		}
 	}
-	if (cs.ID/6)%2 == 1 {
+	preload := (cs.ID/6)%2 == 1
+	if c.Preload != nil {
+		preload = *c.Preload
+	}
+	if preload {
 		pm["preload"] = true
 		out.Via += " preload"
 	}
